@@ -152,7 +152,7 @@ prop('C17', [T.rule_total_native, A.rule_c17_contra, A.rule_a6_record_arms, A.ru
      'of values is not decided.',
      {'A1.total': 55, 'A4.contra': 4, 'A6.arms': 2})
 
-prop('C18', [A.rule_a8_dec, X.rule_nonevalue, T.rule_pair_ber, Z.rule_any_capture_yields, Z.rule_option_scope],
+prop('C18', [A.rule_a8_dec, X.rule_nonevalue, T.rule_pair_ber, Z.rule_any_capture_yields, Z.rule_option_scope, A.rule_a6_open],
      'Raw capture of an indefinite-length TLV is complete (header re-read <=> end-of-octets appended); raw octets are '
      'handed back only to a collecting caller; ANY resolves to the ANY codec in every by-type table.  Equality of the '
      'resolved value is not decided.',
